@@ -1,2 +1,3 @@
+pub mod attrs;
 pub mod layer;
 pub mod lex;
